@@ -21,7 +21,7 @@ def _build(name, here, out):
                        capture_output=True, text=True)
     if p.returncode != 0:
         return None, p.stderr[-2000:]
-    binname = {"state_tree": "st_replay", "ffi_serde": "ffi_replay"}.get(name, name)
+    binname = {"state_tree": "st_replay", "ffi_serde": "ffi_replay", "parser": "parser_replay"}.get(name, name)
     return os.path.join(tgt, "release", binname), ""
 
 
@@ -66,8 +66,31 @@ def _search_ffi(here, out):
     return None, (p.stdout.strip()[-300:] + p.stderr.strip()[-300:])
 
 
-SEARCHERS = {"state_tree": lambda here, out: _search_state_tree(here, out, 4), "ffi_serde": _search_ffi}
-TOOLS = {"st_replay": "state_tree", "ffi_replay": "ffi_serde"}
+def _search_parser(here, out):
+    exe, err = _build("parser", here, out)
+    if exe is None:
+        return None, "replay harness does not build against the current tree: " + err[-400:]
+    try:
+        p = subprocess.run([exe, "search", "4"], capture_output=True, text=True, timeout=600)
+    except subprocess.TimeoutExpired:
+        return None, "replay search timeout"
+    m = re.search(r"FOUND src=(\".*?\") clause=(.*) tried=(\d+)", p.stdout)
+    if m:
+        src = json.loads(m.group(1)) if _is_json_str(m.group(1)) else m.group(1).strip('"')
+        return {"cmd": ["parser_replay", "run", src], "src": src, "clause": m.group(2)}, ""
+    return None, p.stdout.strip()[-300:]
+
+
+def _is_json_str(s):
+    try:
+        json.loads(s)
+        return True
+    except Exception:
+        return False
+
+
+SEARCHERS = {"state_tree": lambda here, out: _search_state_tree(here, out, 4), "ffi_serde": _search_ffi, "parser": _search_parser}
+TOOLS = {"st_replay": "state_tree", "ffi_replay": "ffi_serde", "parser_replay": "parser"}
 
 
 def make_violation(prop, cfg, r, f, ob, here, out):
@@ -111,7 +134,8 @@ def make_kani_violation(prop, k, here, out):
 
 def run_known(kf, here, out):
     """returns (still_fails: bool|None, detail)"""
-    parts = kf["cmd"].split()
+    import shlex
+    parts = [a.replace("\\n", "\n") for a in shlex.split(kf["cmd"])]
     name = TOOLS.get(parts[0])
     if name is None:
         return None, "unknown replay tool"
